@@ -476,6 +476,76 @@ func runC18(c *Ctx) {
 	if len(chars) < 8 {
 		c.undecided("C18-R3: only %d punctuation characters shared by both lexers", len(chars))
 	}
+	// multi-character tokens: the look-ahead characters each punctuation arm tests for
+	{
+		peeks := func(name string) map[string]map[string]bool {
+			out := map[string]map[string]bool{}
+			d := c.decl(parserPkg, name)
+			if d == nil {
+				return out
+			}
+			p := c.pkg(parserPkg)
+			ast.Inspect(d, func(n ast.Node) bool {
+				sw, ok := n.(*ast.SwitchStmt)
+				if !ok || sw.Tag == nil {
+					return true
+				}
+				for _, st := range sw.Body.List {
+					cc := st.(*ast.CaseClause)
+					var keys []string
+					for _, e := range cc.List {
+						if tv, ok := p.TypesInfo.Types[e]; ok && tv.Value != nil && tv.Value.Kind() == constant.Int {
+							if v, ok := constant.Int64Val(tv.Value); ok && v > 0 && v < 128 {
+								keys = append(keys, string(rune(v)))
+							}
+						}
+					}
+					if len(keys) == 0 {
+						continue
+					}
+					la := map[string]bool{}
+					for _, b := range cc.Body {
+						ast.Inspect(b, func(m ast.Node) bool {
+							be, ok := m.(*ast.BinaryExpr)
+							if !ok || (be.Op != token.EQL && be.Op != token.NEQ) {
+								return true
+							}
+							for _, pr := range [][2]ast.Expr{{be.X, be.Y}, {be.Y, be.X}} {
+								call, ok := pr[0].(*ast.CallExpr)
+								if !ok {
+									continue
+								}
+								se, ok := call.Fun.(*ast.SelectorExpr)
+								if !ok || se.Sel.Name != "peekChar" {
+									continue
+								}
+								if tv, ok := p.TypesInfo.Types[pr[1]]; ok && tv.Value != nil && tv.Value.Kind() == constant.Int {
+									if v, ok := constant.Int64Val(tv.Value); ok && v > 0 && v < 128 {
+										la[string(rune(v))] = true
+									}
+								}
+							}
+							return true
+						})
+					}
+					for _, k := range keys {
+						if out[k] == nil {
+							out[k] = map[string]bool{}
+						}
+						for x := range la {
+							out[k][x] = true
+						}
+					}
+				}
+				return false
+			})
+			return out
+		}
+		cp, xp := peeks("Lexer.nextToken"), peeks("ExpandedLexer.nextToken")
+		for _, ch := range chars {
+			c.ob("C18-R3", parserPkg+"#char:"+strconv.Quote(ch)+":same-look-ahead", token.NoPos, setStr(cp[ch]) == setStr(xp[ch]), "after "+strconv.Quote(ch)+" the compact lexer looks ahead for {"+setStr(cp[ch])+"} but the expanded lexer for {"+setStr(xp[ch])+"}: one of them fuses two characters into a token the other reads as two (`--name` is MINUS MINUS IDENT in compact source and one identifier `--name` in expanded source: a flag parameter becomes a positional one)")
+		}
+	}
 	// expansion rewrites a symbol only where it starts a line; wherever else the compact lexer accepts the character
 	// (`%` as modulo, `@minLen(2)` on a field, `if c { $ y = 1 }` on one line) it stays in the expanded text, so the
 	// expanded lexer needs a token for every character the compact lexer has one for
